@@ -1049,3 +1049,9 @@ PRESERVING += [
 BREAKING += [
     ('c6-rule-objects-drop-name-check', ['C04'], [(A, _ENV_ANCHOR, _rule_class(checks='checks[1:]')), (A, _SEARCH_OLD, _SEARCH_OBJ)]),
 ]
+
+# ---- round 7: white-box audit of C01 / C02 / C06 / C07 (program model, %hi / %lo evaluation rule, rebuild invariant, pack rule) ----
+from .variants_w5 import BREAKING as _W5_BREAKING, PRESERVING as _W5_PRESERVING, UNDECIDED as _W5_UNDECIDED  # noqa: E402
+BREAKING += _W5_BREAKING
+PRESERVING += _W5_PRESERVING
+UNDECIDED += _W5_UNDECIDED
